@@ -26,6 +26,74 @@ fn indices(t: &Tree, at: &mut usize, all: &mut Vec<usize>, chance: &mut Vec<usiz
     }
 }
 
+/// make two several-outcome chance nodes of equal arity one labelled chance infoset (same weights); returns their
+/// preorder indices.  Rescaling ONE of them then gives a shared infoset whose nodes carry proportional, not identical,
+/// weights - a presentation of the same game
+fn share_two_chance_nodes(t: &mut Tree, r: &mut Rng) -> Option<(usize, usize)> {
+    fn collect(t: &Tree, at: &mut usize, out: &mut Vec<(usize, usize)>) {
+        *at += 1;
+        match t {
+            Tree::T { .. } => {}
+            Tree::C { kids, .. } => {
+                if kids.len() >= 2 {
+                    out.push((*at, kids.len()));
+                }
+                kids.iter().for_each(|k| collect(&k.t, at, out));
+            }
+            Tree::P { kids, .. } => kids.iter().for_each(|k| collect(&k.t, at, out)),
+        }
+    }
+    fn node_at<'a>(t: &'a mut Tree, at: &mut usize, want: usize) -> Option<&'a mut Tree> {
+        *at += 1;
+        if *at == want {
+            return Some(t);
+        }
+        match t {
+            Tree::T { .. } => None,
+            Tree::C { kids, .. } => {
+                for k in kids.iter_mut() {
+                    if let Some(n) = node_at(&mut k.t, at, want) {
+                        return Some(n);
+                    }
+                }
+                None
+            }
+            Tree::P { kids, .. } => {
+                for k in kids.iter_mut() {
+                    if let Some(n) = node_at(&mut k.t, at, want) {
+                        return Some(n);
+                    }
+                }
+                None
+            }
+        }
+    }
+    let mut cs = Vec::new();
+    collect(t, &mut 0, &mut cs);
+    let pairs: Vec<(usize, usize)> = cs.iter().flat_map(|a| cs.iter().filter(move |b| b.0 > a.0 && b.1 == a.1).map(move |b| (a.0, b.0))).collect();
+    if pairs.is_empty() {
+        return None;
+    }
+    let (a, b) = *r.pick(&pairs);
+    let ws: Vec<crate::tree::Num> = match node_at(t, &mut 0, a)? {
+        Tree::C { ci, kids } => {
+            *ci = "shared".to_string();
+            kids.iter().map(|k| k.w.clone()).collect()
+        }
+        _ => return None,
+    };
+    match node_at(t, &mut 0, b)? {
+        Tree::C { ci, kids } => {
+            *ci = "shared".to_string();
+            for (k, w) in kids.iter_mut().zip(ws.iter()) {
+                k.w = w.clone();
+            }
+        }
+        _ => return None,
+    }
+    Some((a, b))
+}
+
 fn has_multi(t: &Tree, pl: u8) -> bool {
     match t {
         Tree::T { .. } => false,
@@ -82,6 +150,7 @@ pub fn gen(args: &Args) {
         tree::shorten(&mut t);
         let prof = tree::gen_profile(&mut r, &t, tries % 3, cfg.dyadic);
         let kind = KINDS[((id + 1) % 8) as usize];
+        let shared = if kind == "rescale" { share_two_chance_nodes(&mut t, &mut r) } else { None };
         let (mut all, mut chance) = (Vec::new(), Vec::new());
         indices(&t, &mut 0, &mut all, &mut chance);
         let pool = if kind == "rescale" { chance.clone() } else { all.clone() };
@@ -98,6 +167,10 @@ pub fn gen(args: &Args) {
                 }
             }
             nodes.sort();
+        }
+        if let Some((a, b)) = shared {
+            // one node of the shared chance infoset only
+            nodes = vec![if r.chance(0.5) { a } else { b }];
         }
         let mut pl = 1 + r.below(2);
         if kind == "wrapp" && r.chance(0.75) {
